@@ -777,6 +777,11 @@ func TestVerif_C01_e2e(t *testing.T) {
 		}()
 		human := fmt.Sprintf("retries=%d edit=%q cookie-lines=%q/%q/%q ", tc.retries, tc.edit, tc.rHdr["Cookie"], tc.ncCookie, tc.cHdr["Cookie"]) + fmt.Sprintf("%q %q rpath=%q cpath=%q rq=%q cq=%q rhdr=%d chdr=%q nc=%q ck=%s/%s host=%q body=%s/%d order=%q pseudo=%q base=%v comp=%v ka=%v",
 			tc.method, tc.path, tc.rPath, tc.cPath, tc.rQuery, tc.cQuery, len(tc.rHdr), tc.cHdr, tc.nonCanon, c01Cookies(tc.rCk), c01Cookies(tc.cCk), tc.hostHdr, tc.bodyKind+c01ReadDesc(tc), len(tc.body), tc.order, tc.pseudo, tc.useBase, comp, ka)
+		editedMayFail := false
+		if tc.edited != nil && tc.useBase {
+			_, eruri, _, _, _ := c01Expected(tc.edited)
+			editedMayFail = strings.HasPrefix(eruri, "//")
+		}
 		views := map[string]string{}
 		allSeen := true
 		class := ""
@@ -787,9 +792,17 @@ func TestVerif_C01_e2e(t *testing.T) {
 			seen := o.take()
 			s.Count(p + ":fired")
 			if len(seen) != 1+tc.retries {
-				allSeen = false
-				views[p] = fmt.Sprintf("<%d requests seen, err=%v>", len(seen), err)
-				continue
+				if editedMayFail && len(seen) == 1 && err != nil {
+					// the EDITED description is a relative URL whose first path parameter is empty
+					// ("//…": url.Parse takes what follows for an authority and may reject it): the
+					// call fails at the edited attempt, nothing of it reaches the wire — the first
+					// attempt is judged alone
+					s.Count("err-empty-first-segment-after-edit")
+				} else {
+					allSeen = false
+					views[p] = fmt.Sprintf("<%d requests seen, err=%v>", len(seen), err)
+					continue
+				}
 			}
 			// every retried attempt must be the very request the first attempt was — or, when a
 			// retry hook changed the description in between, the request the CURRENT description
